@@ -1141,6 +1141,9 @@ fn source_enumeration(cx: &mut Cx) -> Vec<String> {
             None if !public.contains(f) => {
                 table.insert(format!("fn {}", f), json!("private function not in the harness's table: reachable only through run(), i.e. through the bytes of the cases (correspondence)"));
             }
+            None if crate::c15::call_sites(&repo_dir(), f) == 0 => {
+                table.insert(format!("fn {}", f), json!("public, but called nowhere in src/ (unreachable for now): not driven; a call site makes it a violation"));
+            }
             None => {
                 table.insert(format!("fn {}", f), json!("UNACCOUNTED"));
                 cx.out.violation(&format!("C04:coverage:fn-not-accounted:{}", f), "a PUBLIC function of connection_optimized.rs is neither driven nor listed with the reason why not (harness/src/c04.rs fn_coverage)", json!({"fn": f}));
